@@ -8,7 +8,7 @@ for m in m5 m6; do
   [ -f $src/patch.diff ] || { echo "$P $m: no patch"; continue; }
   n=1; while [ -d /verif/seeded/${P}_m$n ]; do n=$((n+1)); done
   name=${P}_m$n
-  bash /verif/tools/confirm_seed.sh $src $name > /var/tmp/confirm_$name.txt 2>&1
+  rm -f /var/tmp/seed_$name.log /var/tmp/seed_$name.log.all; bash /verif/tools/confirm_seed.sh $src $name > /var/tmp/confirm_$name.txt 2>&1
   line=$(tail -1 /var/tmp/confirm_$name.txt)
   echo "$line"
   # the crate's own tests must all pass: failing tests other than the demo's (tests/zz_demo.rs) disqualify the seed
